@@ -158,6 +158,21 @@ func VerifH_C10_scan() {
 		stopAt = vpRange("stopAt", 1, vpParam("stopPoints", 4))
 	}
 	stopRequested := false
+	// one chain callback may fail once (a transient store or network error)
+	failAt := 0
+	if vpParam("faults", 0) == 1 {
+		failAt = vpRange("callbackFailsAt", 0, vpParam("faultPoints", 6))
+	}
+	errInjected := errors.New("vp: injected chain callback failure")
+	faultHit := false
+	fails := func() bool {
+		if failAt != 0 && callbacks == failAt && !faultHit {
+			faultHit = true
+			vpReach("chain-callback-failed")
+			return true
+		}
+		return false
+	}
 	enqueueDue := func() {
 		callbacks++
 		if stopAt != 0 && callbacks == stopAt {
@@ -184,6 +199,9 @@ func VerifH_C10_scan() {
 		},
 		GetBlockHash: func(height int64) (*chainhash.Hash, error) {
 			enqueueDue()
+			if fails() {
+				return nil, errInjected
+			}
 			if height < 0 || int(height) > chain.tip {
 				return nil, errors.New("vp: height beyond tip")
 			}
@@ -192,6 +210,9 @@ func VerifH_C10_scan() {
 		},
 		BlockFilterMatches: func(ro *rescanOptions, hash *chainhash.Hash) (bool, error) {
 			enqueueDue()
+			if fails() {
+				return false, errInjected
+			}
 			h := chain.heightOf(hash)
 			if h < 0 {
 				return false, errors.New("vp: unknown block")
@@ -205,6 +226,9 @@ func VerifH_C10_scan() {
 		},
 		GetBlock: func(hash chainhash.Hash, _ ...QueryOption) (*btcutil.Block, error) {
 			enqueueDue()
+			if fails() {
+				return nil, errInjected
+			}
 			h := chain.heightOf(&hash)
 			if h < 0 {
 				return nil, errors.New("vp: unknown block")
@@ -263,6 +287,14 @@ func VerifH_C10_scan() {
 		if stopRequested {
 			// after Stop a caller may get the shutdown error instead of an answer
 			vpAssert(err == nil || err == ErrShuttingDown, "answered-or-shutdown-error")
+		} else if faultHit {
+			// the scan could not complete: the caller gets that error, or the
+			// right answer from a later scan
+			vpAssert(err == nil || err == errInjected, "answered-or-scan-error")
+			if err != nil {
+				vpReach("scan-error-reported")
+				continue
+			}
 		} else {
 			vpAssert(err == nil, "answered-without-error")
 		}
